@@ -33,6 +33,7 @@ func c02Gen(r *Rand, tier string, emit func(op any)) {
 	}
 	genEncOps(r, n*3/4, false, 15, 20, 3, 10, emit) // value-focused: boundary numerics, times, durations
 	genEncOps(r, n/4, false, 60, 60, 3, 6, emit)
+	c02GenNest(emit)
 }
 
 func encShape(op *encOp, extra string) string {
@@ -104,6 +105,13 @@ func trunc2(p []byte) []byte {
 }
 
 func c02Exec(raw json.RawMessage) Result {
+	var kind struct {
+		K string `json:"k"`
+	}
+	unmarshal(raw, &kind)
+	if kind.K == "nestfail" {
+		return c02ExecNest(raw)
+	}
 	var op encOp
 	unmarshal(raw, &op)
 	line, _, pmsg := encRun(&op)
